@@ -42,6 +42,12 @@ inductive TTerm where
   | antiJoin (pos neg : TTerm)                        -- `anti_join::<'tick,'tick>`: `neg` is a stream of keys
   | difference (pos neg : TTerm)                      -- `filter_not_in`: `difference::<'tick,'tick>`
   | deferTick (t : TTerm)                             -- `defer_tick()`: `defer_tick_lazy()`
+  | constS (v : Val)                                  -- `tick.singleton(q!(v))`: `SingletonSource { first_tick_only: false }`
+                                                      --   inside a tick = `source_iter([v]) -> persist::<'static>()`: `[v]` in EVERY tick
+  | firstTick (v : Val)                               -- `tick.optional_first_tick(q!(v))`: `SingletonSource { first_tick_only: true }`
+                                                      --   = `source_iter([v])` (no persist): `[v]` in the FIRST tick only
+  | chainFirst (a b : TTerm)                          -- `Optional::or` / `unwrap_or`: `ChainFirst` = `chain_first_n(1)`
+                                                      --   (`union` of pulls = `[0]` then `[1]`, then `take(1)`)
   | acrossFold (init : Val) (f : Val → Val → Val) (t : TTerm)
       -- `t.across_ticks(|s| s.fold(init, f))`: `all_ticks_atomic` (identity), `fold::<'static>` at the
       -- atomic (top-level) location, snapshot back into the tick (identity)
@@ -82,6 +88,9 @@ def evalAt (next : TTerm) : Nat → TTerm → List TickIn → Batch
     let neg := evalAt next fuel n hist
     (evalAt next fuel p hist).filter (fun x => !mem neg x)
   | fuel, .deferTick t, hist => if hist.length ≤ 1 then [] else evalAt next fuel t hist.dropLast
+  | _, .constS v, _ => [v]
+  | _, .firstTick v, hist => if hist.length ≤ 1 then [v] else []
+  | fuel, .chainFirst a b, hist => (evalAt next fuel a hist ++ evalAt next fuel b hist).take 1
   | fuel, .acrossFold init f t, hist =>
     -- the `'static` accumulator has folded every batch the collection held so far, this tick's included
     [(((List.range hist.length).map (fun i => evalAt next fuel t (hist.take (i + 1)))).flatten).foldl f init]
@@ -103,9 +112,44 @@ def TTerm.stateless : TTerm → Bool
   | .cyc => false
   | .deferTick _ => false
   | .acrossFold _ _ _ => false
+  | .constS _ => true
+  | .firstTick _ => false
   | .map _ t | .filter _ t | .flatMap _ t | .filterMap _ t | .enumerate t | .unique t | .sort t
   | .scan _ _ t | .limit _ t | .fold _ _ t | .reduce _ t | .kfold _ _ t => t.stateless
-  | .chain a b | .crossSingleton a b | .joinHalf a b | .antiJoin a b | .difference a b =>
+  | .chain a b | .crossSingleton a b | .joinHalf a b | .antiJoin a b | .difference a b | .chainFirst a b =>
     a.stateless && b.stateless
+
+/-! ### tick cycles with an initial value (`Tick::cycle_with_initial`, `sliced! { use::state(..) }`)
+
+hydro_lang builds them out of the nodes above (live_collections/optional.rs, singleton.rs); the definitions below
+transcribe that library code expression by expression.  Rust values of the helper closures are encoded in `Val`:
+`()` = `int 0`, `bool` = `int 0/1`, `None` = `int 0`, `Some x` = `pair (int 1) x`. -/
+
+def vUnit : Val := .int 0
+def vNone : Val := .int 0
+def vSome (x : Val) : Val := .pair (.int 1) x
+def vBool (b : Bool) : Val := .int (if b then 1 else 0)
+
+/-- `Optional::into_singleton`: `self.map(q!(|v| Some(v))).unwrap_or(none_singleton)` where `none_singleton` is
+    `SingletonSource { value: None, first_tick_only: false }` -/
+def TTerm.intoSingleton (o : TTerm) : TTerm := .chainFirst (.map vSome o) (.constS vNone)
+
+/-- `Optional::is_some`: `self.map(q!(|_| ())).into_singleton().map(q!(|o| o.is_some()))` -/
+def TTerm.isSome (o : TTerm) : TTerm :=
+  .map (fun o => vBool (decide (o ≠ vNone))) (TTerm.intoSingleton (.map (fun _ => vUnit) o))
+
+/-- `Optional::filter_if(signal)`: `self.zip(signal.filter(q!(|b| *b))).map(q!(|(d, _)| d))`;
+    `zip` inside a tick is `HydroNode::CrossSingleton` (`zip_inside_tick`) -/
+def TTerm.filterIf (d signal : TTerm) : TTerm :=
+  .map Val.key (.crossSingleton d (.filter (fun b => decide (b = vBool true)) signal))
+
+/-- `impl CycleCollectionWithInitial<TickCycle> for Optional`: `create_source_with_initial` =
+    `from_previous_tick.or(initial.filter_if(location.optional_first_tick(q!(())).is_some()))`
+    with `from_previous_tick = DeferTick { CycleSource }` (= `TTerm.cyc`) -/
+def TTerm.optCycleWithInitial (initial : TTerm) : TTerm :=
+  .chainFirst .cyc (TTerm.filterIf initial (TTerm.isSome (.firstTick vUnit)))
+
+/-- `impl CycleCollectionWithInitial<TickCycle> for Singleton`: `from_previous_tick.unwrap_or(initial)` -/
+def TTerm.singCycleWithInitial (initial : TTerm) : TTerm := .chainFirst .cyc initial
 
 end HvHydro
